@@ -514,6 +514,9 @@ class TypeTransformer:
 
         data = self._attempt_from(data)
         if isinstance(data, (int, float, Decimal)):
+            if not abs(data) < float("inf"):
+                # inf / nan can never be scaled down to a timestamp
+                raise ValueError(f"invalid timestamp: {data}")
             while abs(data) > self.MS_WATERSHED:
                 data /= 1000
             return t.utcfromtimestamp(data).replace(tzinfo=timezone.utc)
@@ -552,6 +555,9 @@ class TypeTransformer:
         except (TypeError, ValueError):
             pass
         else:
+            if not abs(num) < float("inf"):
+                # inf / nan can never be scaled down to a timestamp
+                raise ValueError(f"invalid timestamp: {num}")
             while abs(num) > self.MS_WATERSHED:
                 num /= 1000
             return t.utcfromtimestamp(num).replace(tzinfo=timezone.utc)
